@@ -38,6 +38,7 @@ type Stats struct {
 	PanicChecks  int
 	AssertChecks int
 	CacheHits    int
+	RangeHits    int
 	Canon        int
 }
 
@@ -101,6 +102,9 @@ type Engine struct {
 	varCache  map[*Term][]uint32
 	viewCopies map[ObjID]bool
 	funIDs    map[string]uint32
+	zv        *zoneView
+	summaries map[string]bool
+	zoneTable []ZoneRow
 }
 
 type PathModel struct {
@@ -142,6 +146,7 @@ func NewEngine(prog *ssa.Program, opt Options, harness string) *Engine {
 		varCache:  map[*Term][]uint32{},
 		viewCopies: map[ObjID]bool{},
 		funIDs:    map[string]uint32{},
+		summaries: map[string]bool{},
 	}
 	e.sol.Harness = harness
 	e.sol.Incremental = os.Getenv("VERIF_INCREMENTAL") != "0"
